@@ -161,25 +161,8 @@ type crashGen struct {
 func (g *crashGen) key() string { return HexOf([]byte{byte(g.r.Intn(3)), byte('a' + g.r.Intn(2))}[:1+g.r.Intn(2)]) }
 func (g *crashGen) val() string { return HexOf([]byte{byte(g.r.Intn(256))}) }
 
-// allDropped: the pool flush would drop two or more existing DBs while no wrapper remains: the
-// dirty marks cannot protect that (defect candidate reported separately); never generated.
-func (g *crashGen) allDropped() bool {
-	remaining, drops := 0, 0
-	for n := range g.opened {
-		if !g.queued[n] {
-			remaining++
-		} else if g.exists[n] {
-			drops++
-		}
-	}
-	return remaining == 0 && drops >= 2
-}
-
 func (g *crashGen) flush() {
 	if g.mode == "pool" {
-		if g.allDropped() {
-			return
-		}
 		for n := range g.queued {
 			delete(g.opened, n)
 			delete(g.exists, n)
